@@ -1,5 +1,6 @@
 // UNIT eval: the recursive evaluator eval_node against the HCTL semantics (C01, C02, C03, C12, C18, C20)
 #![feature(allocator_api)]
+#![feature(pattern)]
 #![allow(unused_imports, dead_code, unused_variables, unused_mut, non_snake_case, unused_parens)]
 use vstd::prelude::*;
 use vstd::string::StringSliceAdditionalSpecFns;
@@ -13,6 +14,7 @@ verus! {
 
 //@include prelude/bn_model.rs
 //@include prelude/std_model.rs
+//@include prelude/weak_std.rs
 //@include spec/syntax.rs
 //@include spec/ctl.rs
 //@include spec/lowlevel.rs
